@@ -366,13 +366,48 @@ def md035(d, cfg):
     return must, silent
 
 
+def _parents(d):
+    """fence token -> (innermost container kind, is first child of that container)"""
+    out = {}
+    stack = []
+    prev = None
+    for t in d.toks:
+        if t.type in ("blockquote_open", "list_item_open"):
+            stack.append("quote" if t.type == "blockquote_open" else "item")
+        elif t.type in ("blockquote_close", "list_item_close"):
+            if stack:
+                stack.pop()
+        elif t.type == "fence":
+            out[id(t)] = (stack[-1] if stack else None, prev is not None and prev.type in ("blockquote_open", "list_item_open"))
+        if t.type not in ("bullet_list_open", "ordered_list_open"):
+            prev = t
+    return out
+
+
+_CBLANK = re.compile(r"[ \t>]*")
+
+
 def md031(d, cfg):
     must, silent = [], set()
+    list_items = cfg.get("list_items", True)
+    parents = _parents(d)
     for f in d.fences:
         a, b = f.map
         rng = set(range(a + 1, min(b, d.n) + 1))
         if f.level != 0:
+            kind, first_child = parents.get(id(f), (None, False))
             silent.update(rng)
+            if kind == "item" and not list_items:
+                # "will not trigger ... directly within a list item": nothing may be reported for this fence
+                silent.difference_update(rng)
+                if b <= d.n:
+                    silent.add(b)  # the closing fence may also be the item's last line: what follows is outside the item
+                continue
+            if "\t" in d.lines[a] or (a > 0 and "\t" in d.lines[a - 1]):
+                continue
+            # the line before the opening fence, inside the same container, is not blank
+            if not first_child and a > 0 and not _CBLANK.fullmatch(d.lines[a - 1]) and kind == "quote" and d.lines[a - 1].lstrip(" ").startswith(">"):
+                must.append({a + 1})
             continue
         closed = b - 1 > a and d.lines[b - 1].strip().startswith(f.markup[0] * 3) if b - 1 < d.n else False
         if a > 0 and d.lines[a - 1].strip(" \t") != "":
@@ -462,7 +497,14 @@ def md024(d, cfg):
     must, silent = [], set()
     seen = set()
     fuzzy = set()
-    for h in d.headings:
+    siblings = cfg.get("siblings_only") or cfg.get("allow_different_nesting")
+    stack = []  # (level, index) of the headings that enclose the current one
+    for hi, h in enumerate(d.headings):
+        lvl = int(h.tag[1])
+        while stack and stack[-1][0] >= lvl:
+            stack.pop()
+        parent = stack[-1][1] if stack else None
+        stack.append((lvl, hi))
         rng = set(range(h.map[0] + 1, h.map[1] + 1))
         inl = d.inline_after(h)
         text = inl.content if inl is not None else ""
@@ -474,12 +516,13 @@ def md024(d, cfg):
             silent.update(rng)
             fuzzy.add(text)
             continue
+        key = (parent, lvl, text) if siblings else text
         if text in fuzzy:
             silent.update(rng)  # duplicates of a heading that was not judged are not judged either
-        elif text in seen:
+        elif key in seen:
             must.append(rng)
             silent.update(rng)
-        seen.add(text)
+        seen.add(key)
     return must, silent
 
 
@@ -581,11 +624,11 @@ ORACLES = {
     "md046": (md046, [{}, {"style": "fenced"}, {"style": "indented"}]),
     "md004": (md004, [{}, {"style": "dash"}, {"style": "asterisk"}, {"style": "plus"}]),
     "md035": (md035, [{}, {"style": "---"}, {"style": "***"}]),
-    "md031": (md031, [{}]),
+    "md031": (md031, [{}, {"list_items": False}]),
     "md042": (md042, [{}]),
     "md045": (md045, [{}]),
     "md003": (md003, [{}, {"style": "atx"}, {"style": "atx_closed"}, {"style": "setext"}]),
-    "md024": (md024, [{}]),
+    "md024": (md024, [{}, {"siblings_only": True}, {"allow_different_nesting": True}]),
     "md022": (md022, [{}, {"lines_above": 2}, {"lines_below": 0}]),
     "md032": (md032, [{}]),
 }
